@@ -238,7 +238,8 @@ def call_closure(ex, st, f: V, args: list):
         first = f if (target.params[0][1].startswith("&") and isinstance(f, Ref)) else (f0 if not target.params[0][1].startswith("&") else ex.alloc(st, f0))
         s = st.clone()
         depth = len(s.frames)
-        ex.start(target, [first] + list(args), s, s.frames[-1].generics if s.frames else None)
+        gen = dict(f0.generics) if f0.generics else (s.frames[-1].generics if s.frames else None)
+        ex.start(target, [first] + list(args), s, gen)
         outs = ex.run_state_nested(s, depth + 1)
         res = []
         for o in outs:
@@ -559,6 +560,12 @@ def _norm(t):
 def _try_into(ex, st, c, args, dty):
     m = re.match(r"^TryInto<(.*)>$", c.trait.strip(), re.S)
     dst = m.group(1).strip()
+    try:
+        fn = ex.resolve_fn(parse_callee(f"<{dst} as TryFrom<{c.qself}>>::try_from"), args)
+    except Unsupported:
+        fn = None
+    if fn is not None:
+        return CallProject(f"<{dst} as TryFrom<{c.qself}>>::try_from", args)
     if re.match(r"^\[u8; \d+\]$", dst):
         return _vec_try_into_array(ex, st, c, args, dty)
     return _try_convert(ex, st, args[0], dst)
@@ -875,6 +882,8 @@ def _index(ex, st, c, args, dty):
         n = ex.len_of(st, r)
         inb = ex.binop("Lt", idx, n).e
         return [(inb, Ref(rr.cell, rr.proj + (("idx", idx),))), (z3.Not(inb), Panic("index out of bounds"))]
+    if isinstance(idx, FnRef) and idx.name.split("::")[-1] == "RangeFull":
+        return rr
     if isinstance(idx, Adt) and idx.ty in ("RangeFrom", "Range", "RangeTo", "RangeFull", "RangeInclusive"):
         return _slice_range(ex, st, rr, items, idx)
     raise Unsupported(f"Index with {idx!r}")
@@ -1133,6 +1142,10 @@ def _range_next(ex, st, c, args, dty):
 
 
 def _mk_iter(items):
+    if isinstance(items, Bytes):
+        us = seq_units(items.s)  # concrete-length byte strings iterate element-wise
+        if us is not None:
+            items = Arr(tuple(BV(z3.simplify(u), 8, False) for u in us))
     return LibV("iter", (items,))
 
 
@@ -2478,3 +2491,90 @@ def _map_contains(ex, st, c, args, dty):
     k = deref(ex, st, kref)
     m = _map_of(ex, st, r)
     return [(cond, BoolV(z3.BoolVal(val is not None))) for cond, val in _map_lookup(ex, st, m, k)]
+
+
+@_int_method("pow")
+def _int_pow(ex, st, c, args, dty):
+    a, e = args
+    ee = z3.simplify(e.e)
+    if not is_concrete(ee):
+        raise Unsupported("pow with symbolic exponent")
+    x = ex.to_int_expr(a)
+    r = z3.IntVal(1)
+    for _ in range(ee.as_long()):
+        r = r * x
+    r = z3.simplify(r)
+    lo, hi = ex.range_of(a.bits, a.signed)
+    ok = z3.And(r >= lo, r <= hi)
+    val = ex.mk_int(r.as_long(), a.bits, a.signed) if is_concrete(r) else BV(r, a.bits, a.signed)
+    return [(ok, val), (z3.Not(ok), Panic("attempt to multiply with overflow"))]
+
+
+# ---------------------------------------------------------------------------------------------
+# VecDeque (as a vector: front = index 0)
+
+
+@reg("VecDeque::new")
+def _vd_new(ex, st, c, args, dty):
+    return VecV(Arr(()))
+
+
+@reg("<VecDeque as From>::from", "VecDeque::from")
+def _vd_from(ex, st, c, args, dty):
+    v = args[0]
+    if isinstance(v, VecV) and isinstance(v.items, Bytes):
+        us = seq_units(v.items.s)
+        if us is None:
+            raise Unsupported("VecDeque from a symbolic-length byte vector")
+        return VecV(Arr(tuple(BV(u, 8, False) for u in us)))
+    return v
+
+
+@reg("VecDeque::pop_front")
+def _vd_pop_front(ex, st, c, args, dty):
+    r = args[0]
+    a = _vec_arr(ex, st, r)
+    if not a.elems:
+        return Adt("Option", "None", ())
+    write_through(ex, st, r, VecV(Arr(a.elems[1:])))
+    return Adt("Option", "Some", (a.elems[0],))
+
+
+@reg("VecDeque::pop_back")
+def _vd_pop_back(ex, st, c, args, dty):
+    return _vec_pop(ex, st, c, args, dty)
+
+
+@reg("VecDeque::push_back")
+def _vd_push_back(ex, st, c, args, dty):
+    return _vec_push(ex, st, c, args, dty)
+
+
+@reg("VecDeque::push_front")
+def _vd_push_front(ex, st, c, args, dty):
+    r = args[0]
+    a = _vec_arr(ex, st, r)
+    write_through(ex, st, r, VecV(Arr((args[1],) + a.elems)))
+    return UNIT
+
+
+@reg("VecDeque::append")
+def _vd_append(ex, st, c, args, dty):
+    return _vec_append(ex, st, c, args, dty)
+
+
+@reg("VecDeque::len", "VecDeque::is_empty")
+def _vd_len(ex, st, c, args, dty):
+    n = ex.len_of(st, args[0])
+    return n if c.method == "len" else BoolV(n.e == 0)
+
+
+@reg("<VecDeque as FromIterator>::from_iter", "VecDeque::from_iter")
+def _vd_from_iter(ex, st, c, args, dty):
+    cases = _force_iter(ex, st.clone(), args[0])
+    return Forked([(s, r if isinstance(r, Panic) else VecV(r)) for s, r in cases])
+
+
+@reg("[T]::join", "[T]::concat")
+def _slice_join(ex, st, c, args, dty):
+    return fresh_obj("joined", "String")
